@@ -1,12 +1,10 @@
 from engine import Query
 import json
 META = {}
-X = ('--max-field-sensitivity-array-size', '512', '--object-bits', '10')
 def queries(tier):
-    b = {'Dispose': 3, 'Copy': 6, 'Hash': 3, 'IsEqual': 3, 'find': 3, 'resize|generateHash|expand': 6, 'vf_mem.*': 40, 'Count': 3, 'SetToZero': 20}
-    qs = [Query(e, 'probe_val.cpp', e, {}, bounds=b, default_unwind=3, timeout=600, mem_gb=16, default_rec=1, rec_bounds={'~Value': 2}, extra_cbmc=X) for e in ('h_obj', 'h_obj2')]
-    B = {'Next': 14, 'h_render': 100, 'Copy': 20, 'IsEqual': 8, 'Dispose': 3, 'parse|parse.*|checkLoopVariable|getOperation|isExpression': 40, 'vf_mem.*': 200, 'sym_tree': 5,
-         'render.*|getValue|evaluate.*|GetExpressionValue|isEqual': 4, 'Write': 40, 'EscapeHTMLSpecialChars': 16}
-    for i, t in enumerate(['{var:a}', '<loop value="v">{var:v}</loop>', '<if case="a">x</if>', '{math:1+a}']):
-        qs.append(Query('t%d' % i, 'C01_tpl.cpp', 'h_render', {'TPL': json.dumps(t)}, bounds=B, default_unwind=4, timeout=600, mem_gb=16, default_rec=3, extra_cbmc=X))
+    B = {'Next': 14, 'h_r1': 60, 'Copy': 12, 'IsEqual': 8, 'Dispose': 3, 'parse|parse.*|checkLoopVariable|getOperation|isExpression': 40, 'vf_mem.*': 120, 'SetToZero': 20,
+         'render.*|getValue|evaluate.*|GetExpressionValue|isEqual': 4, 'Write|write': 12, 'EscapeHTMLSpecialChars': 4, 'Hash': 3, 'find': 3, 'resize|generateHash|expand': 6, 'Count': 3}
+    qs = []
+    for i, t in enumerate(['{var:a}', 'x{var:a}y{raw:a}', '<loop value="v">{var:v}</loop>']):
+        qs.append(Query('r%d' % i, 'probe_render.cpp', 'h_r1', {'TPL': json.dumps(t)}, bounds=B, default_unwind=4, timeout=600, mem_gb=16, default_rec=2))
     return qs
